@@ -639,6 +639,12 @@ class AssociationSocket:
         sock = cast(socket.socket, self.socket)
         try:
             sock.shutdown(socket.SHUT_RDWR)
+        except Exception:
+            # e.g. ENOTCONN if the peer has already reset the connection
+            pass
+
+        # Always close, otherwise the file descriptor is leaked
+        try:
             sock.close()
         except Exception:
             pass
